@@ -1,4 +1,5 @@
 import Driver.OpsCore
+import Driver.OpsEval
 namespace Driver
 open Tak Codec
 
@@ -31,6 +32,9 @@ def handleApi : Handler := fun st op args =>
         match p.apply st.basis m with
         | .ok q => accStr q
         | .error e => fmtErr e)
+  -- `MinimaxAI.Evaluate` with the default weights: the value of `ai.MakeEvaluator(size, nil)` (C18's `eval`), whatever the
+  -- engine was asked before
+  | "evalmm", [ptok] => some (st, withPos ptok fun p => fmtRInt (evaluateDefault p.c p))
   | "api.flood", [n, w, s] =>
     match n.toNat?, w.toNat?, s.toNat? with
     | some n, some w, some s =>
